@@ -111,7 +111,15 @@ func (fr *Frame) staticCall1(fn *ssa.Function, args []*Val, bind []*Val, st *Sta
 		return r
 	}
 	if spec != nil && !spec.Inline {
+		fr.closureBind = nil
+		if len(fn.FreeVars) > 0 && len(bind) == len(fn.FreeVars) {
+			fr.closureBind = map[string]*Val{}
+			for i, fv := range fn.FreeVars {
+				fr.closureBind[fv.Name()] = fr.loadQuiet(st, bind[i])
+			}
+		}
 		res := fr.applyContract(spec, fn, sig, args, nil, st, pos)
+		fr.closureBind = nil
 		return fr.tupleOrSingle(res, sig)
 	}
 	if fn.Blocks != nil && ((spec != nil && spec.Inline) || e.isRepoFn(fn)) && fr.depth < maxInlineDepth && !fr.isRecursive(fn) {
@@ -214,6 +222,9 @@ func (fr *Frame) applyContract(spec *FuncSpec, fn *ssa.Function, sig *types.Sign
 	}
 	cf := fr.specFrame(spec, fn, sig, args, pkg)
 	cf.parent = nil
+	for k, v := range fr.closureBind {
+		cf.env[k] = v
+	}
 	pre := st.clone()
 	// a callee that treats a parameter as not yet shared may only be handed an unshared object
 	for _, u := range spec.Unshared {
@@ -1097,7 +1108,12 @@ func (fr *Frame) atAsserts(callee string, args []*Val, sig *types.Signature, st 
 			fr.bindErr(a.Clause, err)
 			continue
 		}
-		fr.e.oblige("at", callee+":"+a.Clause.Label, st.pc, t, a.Clause.Props, pos, fr.srcText(pos))
+		if a.Assume {
+			fr.e.trusted["assumption at call of "+callee+" in "+root.key+" ["+a.Clause.Label+"]"] = true
+			fr.e.assume(st.pc, t)
+		} else {
+			fr.e.oblige("at", callee+":"+a.Clause.Label, st.pc, t, a.Clause.Props, pos, fr.srcText(pos))
+		}
 		root.atHits[a]++
 	}
 }
